@@ -11,7 +11,8 @@ line: C09 hist <op> <op> ...        one whole history per line (TAB separated op
   P|<dep>|<json fmt>|<json values>|<json kwargs>      bitstring.pack(fmt, *values, **kwargs)
   U|<dep>|<json fmt>|<bits>|<mode>|<json kwargs>      unpack / readlist / read / peeklist of a format on given bits; list
                                            items may be strings, integers and {"d": [token, length, scale]} = a Dtype OBJECT
-  D|<dep>|<json [token, length, scale, mode]>          Dtype(token, length, scale)  (mode 'array': Array(token).dtype)
+  D|<dep>|<json [token, length, scale, mode]>          Dtype(token, length, scale)  (mode 'array': Array(token).dtype;
+                                           mode 'obj' + [scale2, length2]: Dtype(<that Dtype object>[, length2], scale=scale2))
   A|<dep>|<name>|<json values>             Array(Dtype(name, scale='auto'), values)   (builds Array._largest_values once)
   N|<dep>|<json [route, cls, name, length, value]>
         construct from a (dtype, value) pair without going through a string: kw cls(name<length>=value), kwl
@@ -34,7 +35,7 @@ The model (Model/C09.lean) simulates the eight LRU caches (capacities re-read fr
 assignments and the method re-binding, and predicts the same string.
 """
 from harness.common import *
-import json, math, pickle, functools, struct as _struct, atexit, array as _array
+import json, math, pickle, functools, re, struct as _struct, atexit, array as _array
 
 FUNCTIONAL = False
 LEVEL_TEXT = ("Lean theorems over functools.lru_cache as a list machine (hit: move to front; miss: run the function under the "
@@ -443,7 +444,15 @@ def _n_call(arg):
 
 
 def _d_call(arg):
-    token, length, scale, mode = json.loads(arg)
+    j = json.loads(arg)
+    token, length, scale, mode = j[:4]
+    if mode == "obj":
+        # Dtype(<Dtype OBJECT obtained from an earlier creation>[, length], scale=…): j[4] = scale of the second call,
+        # j[5] = length argument of the second call (or None)
+        d = _d_call(json.dumps([token, length, scale, "dtype"]))
+        sc2 = _scale_of(j[4])
+        d2 = Dtype(d, scale=sc2) if j[5] is None else Dtype(d, j[5], scale=sc2)
+        return [d2, d]
     if mode == "array":
         return Array(token).dtype
     sc = _scale_of(scale)
@@ -531,7 +540,10 @@ def run_op(f, operand=None):
         if k == "N":
             r = _n_call(f[2]); return "ok " + wire(r), r
         if k == "D":
-            r = _d_call(f[2]); return "ok " + canon_dtype(r, True), None
+            r = _d_call(f[2])
+            if isinstance(r, list):
+                return "ok " + "&".join(canon_dtype(x, True) for x in r), None
+            return "ok " + canon_dtype(r, True), None
         if k == "A":
             r = _a_call(f[2], f[3]); return "ok " + canon(r), None
         if k == "B":
@@ -663,6 +675,17 @@ def fresh_eval(opts, items):
 # ---------------------------------------------------------------------------------------------------------------
 # execute: warm pass, cold pass, fresh pass, classification
 # ---------------------------------------------------------------------------------------------------------------
+_TOKEN_RE = re.compile(r"[A-Za-z_][A-Za-z0-9_]*(?::[A-Za-z0-9_]+)?")
+
+
+def _op_tokens(f):
+    if f[0] in "UP":
+        return set(_TOKEN_RE.findall(f[2]))
+    if f[0] == "K":
+        return set(_TOKEN_RE.findall(f[3]))
+    return set(_TOKEN_RE.findall(f[2]))
+
+
 def _flip(t, which):
     l, b, m = t
     if which == "m":
@@ -800,6 +823,16 @@ def execute(line):
             pick = {call_idx[(len(line) * 7919 + len(call_idx)) % len(call_idx)]}
             if len(call_idx) > 100:
                 pick.add(call_idx[-1])
+            # a call that RAISES after an earlier, different call sharing one of its tokens raised: the earlier failure
+            # may have been remembered (negative memo) — such a step is evaluated alone as well (at most 10 per history)
+            failed, extra_pick = [], []
+            for i in call_idx:
+                if ops[i][0] in "UPKDNA" and warm[i].startswith("err"):
+                    t = _op_tokens(ops[i])
+                    if len(extra_pick) < 10 and any(o2 != ops[i] and (t & t2) for o2, t2 in failed):
+                        extra_pick.append(i)
+                    failed.append((ops[i], t))
+            pick.update(extra_pick)
             for i in sorted(pick):
                 r = fresh_eval(optat[i], [(ops[i], operands[i])])
                 if r:
@@ -1179,6 +1212,9 @@ def gen_dtype(rng, stress=False, focus=None):
     if scale is not None and scale[0] in ("i", "f", "b") and ((scale[0] == "f" and float.fromhex(scale[1]) == 0) or
                                                               (scale[0] != "f" and not scale[1])):
         dep = "-"
+    if rng.random() < 0.1:
+        return dep, J([tok, length, scale if rng.random() < 0.3 else None, "obj", rng.choice(SCALES[3:]),
+                       rng.choice([None, None, 8, length])])
     return dep, J([tok, length, scale, "dtype"])
 
 
@@ -1769,6 +1805,84 @@ def targeted(rng, tier):
             vals = [1] if fmt.startswith("int:n") else []
             ops.append("P|-|%s|%s|%s" % (J(fmt), J(vals), J(kw)))
         H(ops)
+    # 14. (i) Dtype(<Dtype OBJECT from an earlier creation>[, length], scale=…) — then the plain creation and every use of
+    #     the same dtype: Dtype(...) again, keyword / pack / build construction, read / unpack, pack with a format
+    bits40 = "1011001110001111010100110000111101011100"
+    dsamples = [s_ for s_ in N_SAMPLES if s_[0] in ("uint", "int", "uintbe", "intle", "hex", "float", "bool", "ue", "e4m3mxfp", "bits", "u", "f")]
+    sc2s = [["i", 4], ["f", "0x1.0000000000000p-1"], ["i", 0], ["b", True], ["f", "0x1.8000000000000p+1"]]
+    for name, length, value in [("uint", 12, 5), ("bool", None, True), ("float", 32, _F(1.5))]:
+        for sc2 in (["i", 4], ["i", 0]):
+            tok = name + (str(length) if length else "")
+            H(["D|-|" + J([tok, None, None, "obj", sc2, None]), "D|-|" + J([tok, None, None, "dtype"]),
+               n_op("kw", "Bits", (name, length, value)), "U|-|%s|%s|read|{}" % (J(tok), bits40), n_op("build", "Bits", (name, length, value))])
+    for form in (0, 1, 2):
+        segs = []
+        for si, (name, length, value) in enumerate(dsamples):
+            for sc2 in sc2s:
+                uid[0] += 1
+                ln = length
+                if name in ("uint", "int", "u", "bits") and length is not None:
+                    ln = 2 + (uid[0] % 60)                          # an entry of its own for every segment
+                    value = 1 if name != "bits" else {"bits": format(uid[0] % (1 << ln), "0%db" % ln)}
+                sample = (name, ln, value)
+                if form == 0 or ln is None:
+                    d0 = [name + (str(ln) if ln is not None else ""), None]
+                elif form == 1:
+                    d0 = [name, ln]
+                else:
+                    d0 = ["%s:%d" % (name, ln), None]
+                tokfmt = name + (":%d" % ln if ln is not None else "")
+                len2 = None if si % 3 else (ln if ln is not None else 8)
+                seg = ["D|-|" + J(d0 + [None, "dtype"]), "D|-|" + J(d0 + [None, "obj", sc2, len2]), "D|-|" + J(d0 + [None, "dtype"]),
+                       n_op("kw", "Bits", sample), n_op("kwl", "BitArray", sample), n_op("pack", "Bits", sample), n_op("build", "Bits", sample),
+                       n_op("prop", "BitArray", sample), "U|-|%s|%s|read|{}" % (J(tokfmt), bits40),
+                       "U|-|%s|%s|unpack|{}" % (J(tokfmt + ", bits"), bits40), "U|-|%s|%s|readlist|{}" % (J([{"d": d0 + [None]}, "bits"]), bits40),
+                       "D|-|" + J(d0 + [sc2, "dtype"]), "D|-|" + J(d0 + [sc2, "obj", None, None]), "D|-|" + J(d0 + [sc2, "dtype"]),
+                       "D|-|" + J(d0 + [None, "dtype"])]
+                segs.append(seg)
+        out.append(_join(segs))
+    # 15. (ii) a call that is expected to RAISE (keyword missing or misnamed, malformed token, wrong arity, bad value),
+    #     then the same format / token / dtype used correctly: the correct call must give its cold-cache result
+    pairs = []
+    for mode in ("unpack", "readlist", "peeklist"):
+        for fmt, kw in (("uint:n, bits", {"n": 8}), ("int:width, hex:rest", {"width": 4, "rest": 8}), ("bin:n", {"n": 5}),
+                        ("2*uint:n, bits:n", {"n": 3})):
+            good = "U|-|%s|%s|%s|%s" % (J(fmt), bits40, mode, J(kw))
+            pairs.append(("U|-|%s|%s|%s|{}" % (J(fmt), bits40, mode), good))                                      # keyword missing
+            pairs.append(("U|-|%s|%s|%s|%s" % (J(fmt), bits40, mode, J({k + "x": v for k, v in kw.items()})), good))   # misnamed
+            pairs.append(("U|-|%s|%s|%s|%s" % (J(fmt), bits40, mode, J({k: "q" for k in kw})), good))              # not a number
+            pairs.append(("U|-|%s|%s|%s|%s" % (J([fmt, "uint:zz"]), bits40, mode, J(kw)), good))                   # other item bad
+        pairs.append(("U|-|%s|%s|%s|{}" % (J("uint:8,, foo:3"), bits40, mode), "U|-|%s|%s|%s|{}" % (J("uint:8"), bits40, mode)))
+        pairs.append(("U|-|%s|-|%s|{}" % (J("uint:8, hex:8"), mode), "U|-|%s|%s|%s|{}" % (J("uint:8, hex:8"), bits40, mode)))  # too few bits
+    for fmt, vals, kw, badvals, badkw in (("uint:n=a, int:n", [1], {"n": 4, "a": 3}, [1], {"a": 3}),
+                                          ("uint:8, hex:8", [5, "ab"], {}, [5], {}), ("uint:8, hex:8", [5, "ab"], {}, [5, "ab", 7], {}),
+                                          ("uint:8", [5], {}, [256], {}), ("hex:n", ["ab"], {"n": 8}, ["ab"], {"n": 7}),
+                                          ("bits:n", [{"bits": 1}], {"n": 3}, [], {"n": 3})):
+        if any(isinstance(v, dict) for v in vals):
+            continue
+        pairs.append(("P|-|%s|%s|%s" % (J(fmt), J(badvals), J(badkw)), "P|-|%s|%s|%s" % (J(fmt), J(vals), J(kw))))
+    pairs += [("K|parse_name_length_token|-|" + J([["uint:n"], {}]), "K|parse_name_length_token|-|" + J([["uint:n"], {"n": 8}])),
+              ("K|parse_name_length_token|-|" + J([["uint:n"], {"m": 8}]), "K|parse_name_length_token|-|" + J([["uint:n"], {"n": 8}])),
+              ("K|tokenparser|-|" + J([["uint:n=a"], {}]), "K|tokenparser|-|" + J([["uint:n=a", ["a", "n"]], {}])),
+              ("K|preprocess_tokens|-|" + J([["2*(uint:8"], {}]), "K|preprocess_tokens|-|" + J([["2*(uint:8)"], {}])),
+              ("K|parse_single_struct_token|-|" + J([[">hh"], {}]), "K|parse_single_struct_token|-|" + J([[">h"], {}])),
+              ("D|-|" + J(["uint", 8, ["i", 0], "dtype"]), "D|-|" + J(["uint", 8, None, "dtype"])),
+              ("D|-|" + J(["uint", 8, ["i", 0], "dtype"]), "D|-|" + J(["uint", 8, ["i", 2], "dtype"])),
+              ("D|-|" + J(["float", 17, None, "dtype"]), "D|-|" + J(["float", 16, None, "dtype"])),
+              ("D|-|" + J(["bool", 2, None, "dtype"]), "D|-|" + J(["bool", None, None, "dtype"])),
+              ("D|-|" + J(["ue", 3, None, "dtype"]), "D|-|" + J(["ue", None, None, "dtype"])),
+              ("D|-|" + J(["uint:x", None, None, "dtype"]), "D|-|" + J(["uint:8", None, None, "dtype"])),
+              ("D|-|" + J(["uint", 8, None, "obj", ["i", 0], None]), "D|-|" + J(["uint", 8, None, "dtype"])),
+              (n_op("kw", "Bits", ("uint", 8, 256)), n_op("kw", "Bits", ("uint", 8, 255))),
+              (n_op("prop", "BitArray", ("hex", 7, "ab")), n_op("prop", "BitArray", ("hex", 8, "ab"))),
+              (n_op("pack", "Bits", ("bool", None, 2)), n_op("pack", "Bits", ("bool", None, 1))),
+              (n_op("build", "Bits", ("e3m2mxfp", None, _F(float("nan")))), n_op("build", "Bits", ("e3m2mxfp", None, _F(1.5)))),
+              ("S|Bits|e|uint:8=256", "S|Bits|-|uint:8=255"), ("S|BitArray|e|0xg, 0b1", "S|BitArray|-|0xf, 0b1"),
+              ("A|-|uint8|%s" % J([(1.0).hex()]), "A|-|float16|%s" % J([(1.0).hex()])),
+              ("A|-|e4m3mxfp|[]", "A|-|e4m3mxfp|%s" % J([(3.0).hex()]))]
+    for bad, good in pairs:
+        H([bad, good, bad, good])
+        H([good, bad, good])
     return out
 
 
